@@ -98,8 +98,14 @@ def expected_entries(mod, genTexts=False, textnorm=norm_default):
             if d.get(field) is not None:
                 e.setdefault('texts', {})[key] = textnorm(d[field])
 
+    def home(r):
+        # a MIB-II object imported from an SMIv1 base module is attributed to the SMIv2 module that defines it
+        from vlib import smiv1ref
+        h = smiv1ref.TABLE.get(r[0], {}).get(r[1])
+        return h[0] if h else r[0]
+
     def refs(lst):
-        return [{'module': r[0], 'object': mapped(r[1])} for r in lst]
+        return [{'module': home(r), 'object': mapped(r[1])} for r in lst]
 
     for d in mod['decls']:
         k = d['k']
@@ -131,7 +137,7 @@ def expected_entries(mod, genTexts=False, textnorm=norm_default):
                 e['default'] = expected_default(d.get('defval'))
                 e['enum_resolved'] = dict((l, v) for l, v in ((d.get('info') or {}).get('enum') or []))
             if d['index']:
-                e['indices'] = [{'module': ref[0], 'object': mapped(ref[1]), 'implied': imp} for imp, ref in d['index']]
+                e['indices'] = [{'module': home(ref), 'object': mapped(ref[1]), 'implied': imp} for imp, ref in d['index']]
             if d['augments']:
                 e['augmention'] = mapped(d['augments'][1])
                 e['augmention_module'] = d['augments'][0]
